@@ -203,6 +203,21 @@ class Flow:
                 continue
             if h.name:
                 hs = d.bind(ast.Name(id=h.name, ctx=ast.Store()), hs, h.type)
+            # try: x = d[k] .. except KeyError: the handler runs because k is not in d - when the
+            # lookup is the only thing in the try body that can raise KeyError (one subscript read of a
+            # plain name / attribute, no calls besides it)
+            if isinstance(h.type, ast.Name) and h.type.id == 'KeyError':
+                subs = [n for b_ in st.body for n in ast.walk(b_) if isinstance(n, ast.Subscript)
+                        and isinstance(n.ctx, ast.Load) and not isinstance(n.slice, ast.Slice)]
+                calls = [n for b_ in st.body for n in ast.walk(b_) if isinstance(n, ast.Call)]
+                if len(subs) == 1 and not calls and isinstance(subs[0].value, (ast.Name, ast.Attribute)) \
+                        and isinstance(subs[0].slice, (ast.Name, ast.Attribute, ast.Constant)):
+                    test = ast.Compare(left=subs[0].slice, ops=[ast.In()], comparators=[subs[0].value])
+                    ast.copy_location(test, subs[0])
+                    ast.fix_missing_locations(test)
+                    hs = d.assume(test, hs, False)
+                    if hs is None:
+                        continue
             outs.append(self.block(h.body, hs))
             if h.type is None or (isinstance(h.type, ast.Name)
                                   and h.type.id in ('Exception', 'BaseException')):
